@@ -128,4 +128,8 @@ example : (erun (start 2 1) [true, false, false, true, true, false, true, true, 
     (erun (start 2 1) [true, false, false, true, true, false, true, true, true]).out = [1, 0, 2] := by
   unfold EState.finished; decide
 
+/-- every counter update of AppStats in the current tree (regenerated list) is a single atomic
+    add: the increments the conservation statements count cannot be lost between a load and a store -/
+theorem c19_counter_updates_atomic : Gen.Shapes.statsCounterOps.all Sched.isAtomicCounterOp = true := by decide
+
 end KsVerif.Proofs.C19
